@@ -125,7 +125,7 @@ def roundtrip_judge(ctx, cases, real):
         if r[0] in ("crash", "asan", "ubsan", "missing"):
             kinds = sorted({col["kind"] for col in c["spec"]["cols"]}) if c["fn"] == "rt" else []
             ctx.fail({"component": "roundtrip" if c["fn"] == "rt" else c["fn"], "stream": c["stream"], "kind": r[0],
-                      "dpv": (c.get("opts") or {}).get("dpv"), "where": _where(r[2] if len(r) > 2 else "")},
+                      "dpv": (c.get("opts") or c).get("dpv"), "where": _where(r[2] if len(r) > 2 else "")},
                      short, "writer/reader under the sanitised build: %r; column kinds %s" % (r[:3], kinds))
         elif c["fn"] == "mt_read" and (r[0] == "exc" or (r[0] == "ok" and r[1] != "clean")):
             # no memory error was SEEN, but a reader thread got an exception / other data from a well-formed file: the
